@@ -52,7 +52,9 @@ def validate(ctx, name, target=None, rid='R13.1', only_groups=False, gid='R14.1'
     g = gen.load_generated(d, t)
     m = gentab.GenModel(g, t)
     repo = gen.REPO
-    sc = schema.Schema(repo + '/' + t['schema'], fixt=(repo + '/' + t['fixt']) if t['fixt'] else None, extra_fields=t.get('extra'))
+    import os
+    spath = t['schema'] if os.path.isabs(t['schema']) else repo + '/' + t['schema']
+    sc = schema.Schema(spath, fixt=(repo + '/' + t['fixt']) if t['fixt'] else None, extra_fields=t.get('extra'))
     ft = ftcodes_from_repo()
     stats = {'definitions': 0, 'shared': 0, 'fields': 0, 'realms': 0, 'messages': 0}
     ns = m.ns
@@ -104,7 +106,8 @@ def validate(ctx, name, target=None, rid='R13.1', only_groups=False, gid='R14.1'
         for k, cls in fac.items():
             if k in df.groups and df.groups[k].cls != cls:
                 problems.append('create_nested_group(%s) creates %s, group class is %s' % (k, cls, df.groups[k].cls))
-        if not is_group and egroups and set(df.ctor_groups) != set(egroups):
+        is_message = any(b.get('q') == 'FIX8::Message' for b in m.records.get(df.cls, {}).get('bases', []))
+        if is_message and egroups and set(df.ctor_groups) != set(egroups):
             problems.append('deep constructor registers groups %s, schema groups %s' % (sorted(df.ctor_groups), sorted(egroups)))
         if not (only_groups and not is_group):
             ctx.check(not problems, r_id, '%s:%s#definition' % (tag, where), t['schema'],
